@@ -168,6 +168,43 @@ def npscalar_rule(ctx):
                disc="npscalar")
 
 
+
+def a2n_rule(ctx):
+    """C15.a2n on its own (shared with C16)."""
+    repo = ctx.repo
+    # ---- array_to_namespace is value preserving (frozen transparent-wrapper entry)
+    B = repo.cls(f"{SAMPLES_MOD}:BaseSamples")
+    a2n = B.methods.get("array_to_namespace")
+    from ..evalr import TRANSPARENT_REPO_FUNCS
+    saved = TRANSPARENT_REPO_FUNCS.pop("aspire.samples:BaseSamples.array_to_namespace", None)
+    try:
+        ev, ret = fold(repo, a2n, B)
+    finally:
+        if saved is not None:
+            TRANSPARENT_REPO_FUNCS["aspire.samples:BaseSamples.array_to_namespace"] = saved
+    ctx.decide(T.strip_raise(ret) == T.atom(a2n.params[1]), "C15.a2n", a2n.ident, loc_of(a2n), "array_to_namespace(x) is a value-preserving conversion of x",
+               f"array_to_namespace returns {T.show(ret)[:120]}")
+    conv = [e for e in ev.events if e.callee == "aspire.utils:asarray"]
+    okd = len(conv) == 1 and conv[0].args[1] == self_attr("xp")
+    ctx.decide(okd, "C15.a2n", a2n.ident, loc_of(a2n), "array_to_namespace converts into the set's own namespace", "array_to_namespace does not convert into self.xp", disc="xp")
+
+    # every path converts: no return before (and no condition around) the asarray call.  An array of another library with an equal-looking dtype (a NumPy array in a
+    # JAX set: JAX dtypes *are* numpy dtypes) would otherwise stay what it was, and the set holds fields of two namespaces
+    early = [n_ for n_ in walk_no_nested(a2n.node) if isinstance(n_, ast.Return) and conv and conv[0].node is not None and n_.lineno < conv[0].node.lineno]
+    cond_ = bool(conv) and any(True for _ in conv[0].conds)
+    ctx.decide(bool(conv) and not early and not cond_, "C15.a2n", a2n.ident, loc_of(a2n, early[0] if early else None), "every path through array_to_namespace passes through the conversion into self.xp",
+               f"array_to_namespace returns at line {early[0].lineno if early else '?'} before the conversion (or converts only under a condition): an array of another library whose dtype compares equal "
+               "(a NumPy array handed to a JAX set -- JAX dtypes are numpy dtypes) is stored as it is, so from_dict / the constructor build a set whose fields live in two namespaces",
+               disc="always")
+    # the device is applied by safe_to_device (which leaves NumPy / JAX alone), never handed to asarray: a conversion forwards the *source* set's device, and
+    # numpy.asarray / jax.numpy.asarray reject a torch.device
+    dev_kw = [n_ for n_ in walk_no_nested(a2n.node) if (isinstance(n_, ast.keyword) and n_.arg == "device" and isinstance(n_.value, ast.Attribute))
+              or (isinstance(n_, ast.Subscript) and isinstance(n_.ctx, ast.Store) and isinstance(n_.slice, ast.Constant) and n_.slice.value == "device")]
+    moves = any(isinstance(n_, ast.Call) and getattr(n_.func, "id", getattr(n_.func, "attr", None)) == "safe_to_device" for n_ in walk_no_nested(a2n.node))
+    ctx.decide(not dev_kw and moves, "C15.a2n", a2n.ident, loc_of(a2n, dev_kw[0] if dev_kw else None), "array_to_namespace moves arrays with safe_to_device and passes no device to asarray",
+               "array_to_namespace hands the set's device to asarray (or no longer uses safe_to_device): to_namespace / from_samples forward the source set's device, so a PyTorch set converted "
+               "to NumPy or JAX passes torch.device('cpu') to numpy.asarray / jnp.asarray, which raises", disc="device")
+
 def run(ctx):
     repo = ctx.repo
     rbs = rebuilds(repo)
@@ -247,38 +284,7 @@ def run(ctx):
     ctx.floor("rebuild methods analysed", seen, 18)
     npscalar_rule(ctx)
 
-    # ---- array_to_namespace is value preserving (frozen transparent-wrapper entry)
-    B = repo.cls(f"{SAMPLES_MOD}:BaseSamples")
-    a2n = B.methods.get("array_to_namespace")
-    from ..evalr import TRANSPARENT_REPO_FUNCS
-    saved = TRANSPARENT_REPO_FUNCS.pop("aspire.samples:BaseSamples.array_to_namespace", None)
-    try:
-        ev, ret = fold(repo, a2n, B)
-    finally:
-        if saved is not None:
-            TRANSPARENT_REPO_FUNCS["aspire.samples:BaseSamples.array_to_namespace"] = saved
-    ctx.decide(T.strip_raise(ret) == T.atom(a2n.params[1]), "C15.a2n", a2n.ident, loc_of(a2n), "array_to_namespace(x) is a value-preserving conversion of x",
-               f"array_to_namespace returns {T.show(ret)[:120]}")
-    conv = [e for e in ev.events if e.callee == "aspire.utils:asarray"]
-    okd = len(conv) == 1 and conv[0].args[1] == self_attr("xp")
-    ctx.decide(okd, "C15.a2n", a2n.ident, loc_of(a2n), "array_to_namespace converts into the set's own namespace", "array_to_namespace does not convert into self.xp", disc="xp")
-
-    # every path converts: no return before (and no condition around) the asarray call.  An array of another library with an equal-looking dtype (a NumPy array in a
-    # JAX set: JAX dtypes *are* numpy dtypes) would otherwise stay what it was, and the set holds fields of two namespaces
-    early = [n_ for n_ in walk_no_nested(a2n.node) if isinstance(n_, ast.Return) and conv and conv[0].node is not None and n_.lineno < conv[0].node.lineno]
-    cond_ = bool(conv) and any(True for _ in conv[0].conds)
-    ctx.decide(bool(conv) and not early and not cond_, "C15.a2n", a2n.ident, loc_of(a2n, early[0] if early else None), "every path through array_to_namespace passes through the conversion into self.xp",
-               f"array_to_namespace returns at line {early[0].lineno if early else '?'} before the conversion (or converts only under a condition): an array of another library whose dtype compares equal "
-               "(a NumPy array handed to a JAX set -- JAX dtypes are numpy dtypes) is stored as it is, so from_dict / the constructor build a set whose fields live in two namespaces",
-               disc="always")
-    # the device is applied by safe_to_device (which leaves NumPy / JAX alone), never handed to asarray: a conversion forwards the *source* set's device, and
-    # numpy.asarray / jax.numpy.asarray reject a torch.device
-    dev_kw = [n_ for n_ in walk_no_nested(a2n.node) if (isinstance(n_, ast.keyword) and n_.arg == "device" and isinstance(n_.value, ast.Attribute))
-              or (isinstance(n_, ast.Subscript) and isinstance(n_.ctx, ast.Store) and isinstance(n_.slice, ast.Constant) and n_.slice.value == "device")]
-    moves = any(isinstance(n_, ast.Call) and getattr(n_.func, "id", getattr(n_.func, "attr", None)) == "safe_to_device" for n_ in walk_no_nested(a2n.node))
-    ctx.decide(not dev_kw and moves, "C15.a2n", a2n.ident, loc_of(a2n, dev_kw[0] if dev_kw else None), "array_to_namespace moves arrays with safe_to_device and passes no device to asarray",
-               "array_to_namespace hands the set's device to asarray (or no longer uses safe_to_device): to_namespace / from_samples forward the source set's device, so a PyTorch set converted "
-               "to NumPy or JAX passes torch.device('cpu') to numpy.asarray / jnp.asarray, which raises", disc="device")
+    a2n_rule(ctx)
     # ---- NumPy -> PyTorch succeeds for every layout.  Frozen API fact: torch.asarray / as_tensor / from_numpy raise ValueError for a NumPy array with a negative
     #      stride (what a reversed selection s[::-1] of a NumPy sample set holds).  The conversion helper hands PyTorch a compact copy of such an array.
     try:
